@@ -71,7 +71,7 @@ CHECKS = {
   "note": "Termination of the CDCL loop is observed (poll watchdog), not proved: 'returns a solution whenever one exists' is proved for runs that end.",
  },
  "C04": {
-  "text": 'Coq: executable model of the conflict renderer (simplify, installable/missing sets, the fmt_graph stack machine with path and expanded sets, message text): termination with an explicit fuel bound for every graph incl. cycles (C04_render_terminates), proven line bound lin_bound = (7 + 3*con_width)*E + 1 and byte bound (C04_render_lines_linear, C04_render_size_bound), the pre-fix renderer provably loops on the cyclic corpus graph (C04_pre_fix_renderer_loops) and the path-only renderer is exponential (C04_path_only_exponential). Tie: every generated conflict message is compared BYTE FOR BYTE with the extracted model and against the proven bound, a sample re-proved inside Coq; all streams run under catch_unwind, a poll watchdog and an output cap in debug and release.',
+  "text": 'Coq: executable model of the conflict renderer (simplify, installable/missing sets, the fmt_graph stack machine with path and expanded sets, message text): termination with an explicit fuel bound for every graph incl. cycles (C04_render_terminates), proven line bound lin_bound = (7 + 3*con_width)*E + 1 and byte bound (C04_render_lines_linear, C04_render_size_bound), the pre-fix renderer provably loops on the cyclic corpus graph (C04_pre_fix_renderer_loops) and the path-only renderer is exponential (C04_path_only_exponential). Tie: every generated conflict message is compared BYTE FOR BYTE with the extracted model and against the proven bound, a sample re-proved inside Coq; all streams run under catch_unwind, a poll watchdog and an output cap in debug and release. One panic class of the solver is excluded by proof: C04_requires_assert_cannot_fail (the assert_ne! at the head of Clause::requires / Clause::constrains cannot fail in the encoder model, whose clause database equals that of the implementation on every run; its hypotheses are evaluated on every hook log).',
   "technique": 'Coq termination/size proofs of a renderer model with byte-exact correspondence + panic/hang/size search on the implementation',
   "note": 'PARTIAL: panic-freedom of the solver itself is searched (debug+release, corpus of former panics), not proved; termination of the outer CDCL loop is observed, not proved.',
  },
